@@ -315,3 +315,15 @@ def _(rng):
     step3[:h, :] = np.cumsum(rng.integers(0, 5, size=(h, w)), axis=0)
     return {"step3": step3, "sum2": rng.integers(0, 7, size=(h, w)).astype(np.float32), "cross_left": cl, "cross_right": cr,
             "range_col": cols[ok].astype(np.int64), "range_col_right": (cols[ok] + d).astype(np.int64)}
+
+
+# ------------------------------------------------------------------------------------------------ frame (C18)
+@contract("pandora.aggregation.cbca.CrossBasedCostAggregation.computes_cross_supports", props=["C18", "C11"])
+def _(self, img_left, img_right, cv):
+    # C18: a run leaves the caller's image datasets exactly as it received them: every store of this function goes to an
+    # array it allocated itself (np.copy before the NaN masking)
+    types(img_left={"vars": {"im": "f32[:,:]", "msk": "i16[:,:]"}, "attrs": {"valid_pixels": "int"}},
+          img_right={"vars": {"im": "f32[:,:]", "msk": "i16[:,:]"}, "attrs": {"valid_pixels": "int"}},
+          cv={"vars": {"cost_volume": "f32[:,:,:]"}, "attrs": {"subpixel": "int", "offset_row_col": "int"}})
+    option(frame_only=True)
+    assigns()
